@@ -50,6 +50,7 @@ def main():
     ap.add_argument("--no-shrink", action="store_true")
     ap.add_argument("--max-report", type=int, default=5)
     ap.add_argument("--summary", action="store_true")
+    ap.add_argument("--features", action="store_true", help="print per-feature failure rates (classification of the clean fragment)")
     a = ap.parse_args()
     prop = a.prop
     if prop not in PROFILES:
@@ -141,10 +142,20 @@ def main():
 
     # ---- report
     rc = 0
+    if a.features:
+        fails = Counter()
+        seen_fail = set()
+        for plan, v in found:
+            key = (v.get("feat"), v["clause"])
+            fails[key] += 1
+        feats = sorted(k[5:] for k in stats if k.startswith("feat:"))
+        for f in feats:
+            fl = {c: n for (ff, c), n in fails.items() if ff == f}
+            print(f"FEATURE {f:40s} reads={stats['feat:'+f]:6d} fails={fl}")
     if a.summary:
         c = Counter()
         for plan, v in found:
-            c[(v["clause"], tuple(v.get("parked") or []), v.get("tag"), str(v.get("atoms") or v.get("sub") or ""), v["after_restart"], v["after_crash"])] += 1
+            c[(v["clause"], tuple(v.get("parked") or []), v.get("tag"), v.get("feat") or str(v.get("atoms") or v.get("sub") or ""), v["after_restart"], v["after_crash"])] += 1
         for key, n in sorted(c.items(), key=lambda x: (x[0][0], -x[1])):
             print(f"SUMMARY {n:6d} {key}")
     for kid, hits in sorted(known_hits.items()):
